@@ -482,11 +482,15 @@ func c19Sched(first, netTok string) string {
 		close(hold)
 		return "timeout sched-t1"
 	}
+	started2 := make(chan struct{})
 	go func() {
+		close(started2)
 		_, err := c19W.a.ManageRoute(second, cidr, 7)
 		r2 = res(err)
 		close(done2)
 	}()
+	<-started2
+	time.Sleep(2 * time.Millisecond) // let T2 reach the lock (or run through, when nothing serializes the calls)
 	// T2 finishes (nothing serializes the calls) or parks on the lock
 	fin := false
 	for dl := time.Now().Add(3 * time.Second); time.Now().Before(dl) && !fin; {
